@@ -553,8 +553,8 @@ def r6(ctx):
             val = U.value_at(fi.node, st.value, st.lineno, keep=keep)
             stores.append((st, ' '.join(src(row).split()),
                            ' '.join(src(val).split())))
-    if len(stores) < 4:
-        raise AnalysisError('_find_adjacent_sc: expected >= 4 link stores, '
+    if len(stores) < 2:
+        raise AnalysisError('_find_adjacent_sc: expected link stores, '
                             'found %d' % len(stores))
     links = {}
     for st, row, val in stores:
